@@ -54,6 +54,11 @@ CHECKS = {
     note="Trusts TLC/SANY, Go toolchain, the gated recording appender (worker parked inside Append/Write). Negative observations ('still blocked') use a bounded wait on behaviour a correct implementation shows forever. Log calls concurrent with Stop are excluded by the property.",
     technique='TLA+ spec (AsyncLogger) model-checked with TLC; AsyncGen behaviours replayed on the real AsyncLogger via a gated appender; recorded multi-producer histories validated by TLC (AsyncHistory)',
     design="4/C04-C06", engine="asyncq"),
+ "C11": dict(
+    text="Caller.tla states the skip arithmetic of the default and the fast lookup over the logical call stack and a per-program-counter cache (SkipArithmetic, ModesAgree, HitEqualsMiss, DisabledIsEmpty) and enumerates 15 entry points x 7 call shapes (+ Record with skip 2, 3) x {default, fast} x enableCaller on/off in the site sequences A A A and A B A. Each case is executed through generated call sites that evaluate runtime.Caller on the logging statement's own line; the location in the record at a recording appender must equal it (empty when disabled). The model is small - the verdict comes from the replay, which is exhaustive over the enumerated space.",
+    note="Trusts TLC/SANY, Go toolchain, and that runtime.Caller(1) inside an argument expression names the statement's line. Compiled with default optimisation (inlining as the compiler chooses).",
+    technique="TLA+ spec (Caller) enumerated by TLC; every case replayed through generated call sites",
+    design="4/C11", engine="caller"),
 }
 
 NOT_YET = {}
